@@ -182,6 +182,31 @@ func WorkerMain(t *testing.T, props []*Prop) {
 	}
 	mode := os.Getenv("VERIF_MODE")
 	outPath := os.Getenv("VERIF_OUT")
+	if d := os.Getenv("VERIF_DUMP_IDX"); d != "" {
+		// debugging aid: run one index of the batch with a trace and print everything
+		idx, _ := strconv.Atoi(d)
+		tier := os.Getenv("VERIF_TIER")
+		if tier == "" {
+			tier = "quick"
+		}
+		seed := CaseSeed(envU64("VERIF_SEED", 1), p.ID, idx)
+		c := p.Gen(simrt.NewRand(seed), tier, idx)
+		b, _ := json.Marshal(c)
+		fmt.Printf("CASE %s\n", b)
+		o := safeRun(p, t, c, true)
+		n := envInt("VERIF_DUMP_LINES", 200)
+		tr := o.Trace
+		if len(tr) > n {
+			tr = tr[len(tr)-n:]
+		}
+		for _, l := range tr {
+			fmt.Println(l)
+		}
+		o.Trace = nil
+		ob, _ := json.Marshal(o)
+		fmt.Printf("OUTCOME %s\n", ob)
+		return
+	}
 	switch mode {
 	case "replay":
 		replay(t, p, os.Getenv("VERIF_FILE"), outPath)
